@@ -33,6 +33,10 @@ func main() {
 		owners := []concfs.Tmpl{
 			{{Op: "ChownSelf", A: "/d/x"}}, {{Op: "LchownSelf", A: "/d/x"}}, {{Op: "LchownSelf", A: "/d/s"}},
 			{{Op: "Chmod", A: "/d/x", Perm: 0o600}}, {{Op: "Stat", A: "/d/x"}}, {{Op: "Remove", A: "/d/x"}},
+			// into and within the sticky /tmp: Rename and Remove ask there who owns the entry
+			{{Op: "Rename", A: "/d/x", B: "/tmp/x"}, {Op: "Rename", A: "/tmp/x", B: "/tmp/y"}},
+			{{Op: "Rename", A: "/d/x", B: "/tmp/x"}, {Op: "Remove", A: "/tmp/x"}},
+			{{Op: "ChownSelf", A: "/tmp/x"}},
 		}
 		pl.Programs = append(pl.Programs, concfs.OrderedPairs("MemFS", true, owners)...)
 
